@@ -65,6 +65,8 @@ def run(ctx):
                 ft = fields.get(f)
                 if ft is not None and any(x.tag == 'ev' and x[4] and x[4][0] == (p.key, r.bb) for x in walk(ft)):
                     r.name = nm
+                elif ft is not None and getattr(r, 'acc_lv', None) is not None and any(x.tag == 'lv' and (x[2], x[3]) == r.acc_lv for x in walk(ft)):
+                    r.name = nm
     names = sorted(r.name for r in roles)
     rep.check(names == sorted(EXPECTED), 'R-C13-1', 'R-C13-1/roles', 'one blinding role per proof point A, L, R, A1, B', 'blinding roles found at sinks: %s' % names, ctx.where(p))
     labels, sites = {}, {}
